@@ -228,6 +228,7 @@ type pconv struct {
 	stats    TraceStats
 	removedNeeded []string
 	probeTerms    []string
+	dirOracle     []string
 }
 
 func (c *pconv) push(ev string, d *mdisk, acked []int, rootSegs, grabSegs []uint64) {
@@ -482,6 +483,8 @@ func (w *World) convertProto(start *mdisk, segdocs map[uint64][]DV) *pconv {
 				delete(d.seg, e.ID)
 			}
 			emit(fmt.Sprintf("PRemoveOk %s %d", cq.B(snp), e.ID))
+		case "oracle":
+			c.dirOracle = append(c.dirOracle, fmt.Sprintf("%s %s %d", e.Note, e.Item, e.ID))
 		case "load-err", "list-err":
 			emit("PFault")
 		case "remove-err":
@@ -684,6 +687,10 @@ func runProto(o Opts, mode string) error {
 	keyBase := 0
 	for s := 0; s < nRuns; s++ {
 		wo := WorldOpts{DirKind: "sim", Universe: 3 + rng.Intn(4)}
+		if s%4 == 3 { // the real FileSystemDirectory behind the recorder
+			wo.DirKind = "fsrec"
+			wo.Path = workDir(fmt.Sprintf("proto-%s-%d-%d", mode, o.Seed, s))
+		}
 		wo.SegVersion = uint32(1 + rng.Intn(2))
 		wo.Unsafe = rng.Intn(4) == 0
 		wo.Merges = []string{"small", "small", "default", "off"}[rng.Intn(4)]
@@ -708,10 +715,18 @@ func runProto(o Opts, mode string) error {
 			w.nextKey = keyBase
 			w.nextV = keyBase*10 + 1
 			var faults *faultPlan
-			if mode == "c14" {
+			if mode == "c14" || ((mode == "c02" || mode == "c11") && s%3 == 2) {
 				faults = newFaultPlan(rng)
+				if mode != "c14" {
+					faults.sticky = false
+				}
 				desc["faults"] = faults.describe()
 			}
+			if wo.DirKind == "fsrec" && round > 0 {
+				wo.Path = workDir(fmt.Sprintf("proto-%s-%d-%d-r%d", mode, o.Seed, s, round))
+				w.O.Path = wo.Path
+			}
+			desc["dir"] = wo.DirKind
 			var runErr error
 			fin, pan := cq.Guard(120*time.Second, func() { runErr = protoScenario(cw, w, rng, mode, faults, desc) })
 			if !fin {
@@ -747,6 +762,9 @@ func runProto(o Opts, mode string) error {
 			cw.Count("merges", conv.stats.Merges)
 			cw.Count("persist_swaps", conv.stats.Swaps)
 			cw.Count("traces_validated", 1)
+			if wo.DirKind == "fsrec" {
+				os.RemoveAll(wo.Path)
+			}
 			if nextImage == nil {
 				break
 			}
@@ -831,7 +849,7 @@ func coqDisk(d *mdisk) string {
 func protoScenario(cw *cq.Writer, w *World, rng *rand.Rand, mode string, faults *faultPlan, desc map[string]interface{}) error {
 	w.config()
 	if faults != nil {
-		w.Dir.FaultAt = faults.at
+		w.SetFaultAt(faults.at)
 	}
 	if err := w.Open(); err != nil {
 		return fmt.Errorf("open: %w", err)
@@ -877,10 +895,17 @@ func protoScenario(cw *cq.Writer, w *World, rng *rand.Rand, mode string, faults 
 		cw.OracleEval(1)
 		before, _ := w.Observe()
 		cfg2 := w.Cfg
-		w2, err := bluge.OpenWriter(cfg2)
-		if err == nil {
-			w2.Close()
-			cw.OracleFail("second-writer-not-refused", "OpenWriter succeeded on a directory locked by an open writer", desc)
+		if w.RDir != nil {
+			cfg2 = bluge.DefaultConfig(w.O.Path) // a second process has its own directory object
+		}
+		// twice: a refused attempt must not weaken the lock for the next one
+		for attempt := 1; attempt <= 2; attempt++ {
+			w2, err := bluge.OpenWriter(cfg2)
+			if err == nil {
+				w2.Close()
+				cw.OracleFail("second-writer-not-refused", fmt.Sprintf("OpenWriter (attempt %d) succeeded on a directory locked by an open writer", attempt), desc)
+				break
+			}
 		}
 		w.attach()
 		after, err2 := w.Observe()
@@ -898,10 +923,10 @@ func protoScenario(cw *cq.Writer, w *World, rng *rand.Rand, mode string, faults 
 	}
 	if mode == "c11" {
 		cw.OracleEval(3)
-		if w.Dir.Locked() {
+		if w.DirLocked() {
 			cw.OracleFail("lock-not-released", "directory still locked after Writer.Close", desc)
 		}
-		if h := w.Dir.OpenHandles(); len(h) > 0 {
+		if h := w.DirOpenHandles(); len(h) > 0 {
 			cw.OracleFail("handles-leaked", fmt.Sprintf("open handles after Close with no reader open: %v", h), desc)
 		}
 		for _, e := range w.Rec.Snapshot() {
@@ -1127,6 +1152,36 @@ func protoProbes(cw *cq.Writer, w *World, c *pconv, lin *lineage, rng *rand.Rand
 				if pi == contPick && vi == 0 && best >= 0 {
 					contImage, contDisk, contCut = files, next, best
 				}
+			}
+		}
+	}
+	// the file-system directory itself (fsrec runs): success reported only for exact files, failure leaves nothing
+	for _, msg := range c.dirOracle {
+		cw.OracleFail(strings.Fields(msg)[0], "FileSystemDirectory.Persist: "+msg, desc)
+	}
+	if w.RDir != nil {
+		cw.OracleEval(1)
+		last := c.diskAt[len(c.diskAt)-1]
+		img := w.DirImage()
+		for k := range img {
+			var id uint64
+			fmt.Sscanf(k[5:], "%x", &id)
+			_, a := last.snp[id]
+			_, b := last.seg[id]
+			_, j1 := last.junkSnp[id]
+			_, j2 := last.junkSeg[id]
+			if !(strings.HasPrefix(k, ".snp/") && (a || j1)) && !(strings.HasPrefix(k, ".seg/") && (b || j2)) {
+				cw.OracleFail("directory-differs-from-log", "file "+k+" exists although no successful persist accounts for it", desc)
+			}
+		}
+		for id := range last.snp {
+			if _, ok := img[fmt.Sprintf(".snp/%016x", id)]; !ok {
+				cw.OracleFail("directory-differs-from-log", fmt.Sprintf("snapshot %d was reported persisted and never removed but is not in the directory", id), desc)
+			}
+		}
+		for id := range last.seg {
+			if _, ok := img[fmt.Sprintf(".seg/%016x", id)]; !ok {
+				cw.OracleFail("directory-differs-from-log", fmt.Sprintf("segment %d was reported persisted and never removed but is not in the directory", id), desc)
 			}
 		}
 	}
